@@ -24,7 +24,11 @@ var c02violRe = regexp.MustCompile(`VERIF-C02-VIOLATION (key=(\S+) msg=[^\n]*)`)
 
 func TestC02_GeneratedDecoders(t *testing.T) {
 	ev.Rule(c02, "generated-code layer: schema sets from the semantic generator are compiled with the real `spec generate`; an emitted driver encodes random values of every declared struct and message, sets every byte of the encoding to {0,1,2,0x7f,0x80,0xfc..0xff,+-1,^0x80, type codes}, truncates it at every length from both ends, places each variant at the end of / right after an inaccessible page and runs Decode<Struct>, Open<Struct>, Parse<Message> and every generated accessor of Open<Message>: no panic, no fault, reported size within the input; non-trivial = set declares >=1 struct")
-	ev.CheckScaled(t, c02, 1, 30, func(rt *rapid.T) {
+	den := int64(30) // quick: 2 schema sets per shard
+	if ev.Thorough() {
+		den = 100 // thorough: 6 per shard x 16 shards (each set costs a compiler run, a go build and a link)
+	}
+	ev.CheckScaled(t, c02, 1, den, func(rt *rapid.T) {
 		s := gen.RapidSrc{T: rt}
 		set, _ := schema.GenSet(s, "vmod")
 		ws, err := NewWorkspace("vmod")
